@@ -202,3 +202,79 @@ theorem encodeParts_of_decodePure (k : Nat) (s : Bytes) (ps : List Bytes) (n : N
     · simp at h
 
 end Whawty.Sasl
+
+namespace Whawty.Sasl
+
+theorem stallFree_mono (cs : List Bytes) : ∀ (e e' : Nat), e' ≤ e → stallFree e cs = true → stallFree e' cs = true := by
+  induction cs with
+  | nil => intro e e' _ _; simp [stallFree]
+  | cons c cs ih =>
+    intro e e' hle h
+    simp only [stallFree] at h ⊢
+    split
+    · rename_i hc
+      simp only [hc, if_true, Bool.and_eq_true, decide_eq_true_eq] at h ⊢
+      exact ⟨by omega, ih (e + 1) (e' + 1) (by omega) h.2⟩
+    · rename_i hc
+      simpa [hc] using h
+
+/-- On fragmentations without a run of more than 100 zero-length reads the scanner loop as it
+    is coincides with the loop without the guard. -/
+theorem decodeScan_eq_decodeChunks (k : Nat) (buf : Bytes) (cs : List Bytes) (e : Nat)
+    (h : stallFree e cs = true) : decodeScan k buf cs e = decodeChunks k buf cs := by
+  fun_induction decodeScan k buf cs e with
+  | case1 => simp [decodeChunks]
+  | case2 k buf e adv p hs ih =>
+    simp only [decodeChunks, hs]
+    rw [ih (by simp [stallFree])]
+  | case3 k buf e hs =>
+    unfold decodeChunks
+    split <;> simp_all
+  | case4 k buf c cs e adv p hs ih =>
+    simp only [decodeChunks, hs]
+    rw [ih (stallFree_mono _ e 0 (by omega) h)]
+  | case5 k buf c cs e hs =>
+    simp [decodeChunks, hs]
+  | case6 k buf c cs e hc hgt h1 h2 =>
+    exfalso
+    simp only [stallFree, hc, if_true, Bool.and_eq_true, decide_eq_true_eq] at h
+    omega
+  | case7 k buf c cs e hc hle h1 h2 ih =>
+    simp only [stallFree, hc, if_true, Bool.and_eq_true, decide_eq_true_eq] at h
+    rw [ih h.2]
+    have hce : c = [] := by simpa using hc
+    subst hce
+    conv => rhs; unfold decodeChunks
+    split
+    · rename_i adv p hh; exact absurd hh (h1 adv p)
+    · rename_i hh; exact absurd hh h2
+    · simp
+  | case8 k buf c cs e hc h1 h2 ih =>
+    have hs : stallFree 0 cs = true := by
+      simp only [stallFree, hc] at h; simpa using h
+    rw [ih hs]
+    conv => rhs; unfold decodeChunks
+    split
+    · rename_i adv p hh; exact absurd hh (h1 adv p)
+    · rename_i hh; exact absurd hh h2
+    · rfl
+
+/-- A reader that makes no progress: while the scanner waits for more data, the 101st
+    zero-length read in a row ends the decoding with an error, whatever would follow. -/
+theorem decodeScan_stalled (k : Nat) (buf : Bytes) (rest : List Bytes) (hm : scan buf false = .more) :
+    ∀ (n e : Nat), e ≤ maxEmptyReads → e + n > maxEmptyReads →
+      decodeScan (k + 1) buf (List.replicate n [] ++ rest) e = none := by
+  intro n
+  induction n with
+  | zero => intro e h1 h2; omega
+  | succ n ih =>
+    intro e h1 h2
+    simp only [List.replicate_succ, List.cons_append]
+    unfold decodeScan
+    simp only [hm, List.isEmpty_nil, if_true]
+    split
+    · rfl
+    · rename_i hgt
+      exact ih (e + 1) (by omega) (by omega)
+
+end Whawty.Sasl
